@@ -1,4 +1,8 @@
 //@include prelude/header.rs
+// v3 PROBE COPY of units/handlers_diag.rs (composition with unit uri_glue): the ONLY differences are the include of
+// prelude/lsp_backend.rs (uri_path := op_uri_to_path, path_uri(c, p) := op_path_to_uri(c.m(), p), UriCache = the real
+// Arc around the DashMap shim) and the `impl Backend { //@stub uri_glue uri_to_path / path_to_uri }` block.  Nothing else
+// had to change; every function verifies as before (+19 lemmas of prelude/uri_l2.rs).
 // Unit handlers_diag: the remaining request / notification handlers of src/providers under contract, same method and
 // infrastructure as unit handlers_nav (real async bodies read sequentially, T13; real LSP types, build/lspspec.rs):
 //   diagnostics.rs       publish_diagnostics_for_file   C19: the list handed to client.publish_diagnostics is
@@ -66,6 +70,12 @@ pub struct QView { pub defs: Map<Seq<char>, Seq<DefV>>, pub texts: Map<PV, Seq<c
 /// what compute_fixture_cycles returns, abstractly (any function of the query view)
 pub uninterp spec fn op_cycles(q: QView) -> Seq<FixtureCycle>;
 pub open spec fn in_file_v(f: PV) -> spec_fn(CycV) -> bool { |c: CycV| c.fixture.file == f }
+
+// Backend::uri_to_path / path_to_uri (src/providers/mod.rs): the contracts PROVED on the real bodies in unit uri_glue
+impl Backend {
+//@stub uri_glue uri_to_path
+//@stub uri_glue path_to_uri
+}
 
 impl Config {
 //@stub config is_diagnostic_disabled
